@@ -4,32 +4,18 @@ use crate::support::*;
 use core::cmp::Ordering;
 pub mod ty {
     #![deny(warnings)]
-    #![allow(dead_code, unused_imports)]
+    #![allow(dead_code, unused_imports, non_snake_case)]
     use crate::support::{A, B, C, Good, Bad, m_eq, m_cmp, m_pcmp, m_hash, m_fmt, m_clone, m_clone_c, m_into, g_eq, g_cmp, g_pcmp, g_hash, g_fmt};
     use educe::Educe;
-
-    // names at the derive site that shadow everything the generated code might be tempted to write unqualified
-    #[allow(non_camel_case_types)] pub struct Option; pub struct Result; pub struct Ordering; pub struct Clone; pub struct Copy;
-    pub struct Default; pub struct Debug; pub struct PartialEq; pub struct Eq; pub struct PartialOrd; pub struct Ord; pub struct Hash;
-    pub struct Hasher; pub struct Into; pub struct From; pub struct Deref; pub struct DerefMut; pub struct Formatter; pub struct String;
-    pub struct Vec; pub struct Box; pub struct PhantomData; pub struct Sized; pub struct Send; pub struct Iterator; pub struct Self_;
-    #[allow(non_snake_case)] pub fn Some() {} #[allow(non_snake_case)] pub fn None() {} #[allow(non_snake_case)] pub fn Ok() {} #[allow(non_snake_case)] pub fn Err() {}
-    pub fn drop() {} pub mod core {} pub mod std {} pub mod alloc {} pub mod fmt {} pub mod cmp {} pub mod hash {} pub mod clone {} pub mod marker {}
-    #[allow(unused_macros)] macro_rules! stringify { ($($t:tt)*) => { "SHADOWED" } }
-    #[allow(unused_macros)] macro_rules! unreachable { ($($t:tt)*) => { () } }
-    #[allow(unused_macros)] macro_rules! panic { ($($t:tt)*) => { () } }
-    #[allow(unused_macros)] macro_rules! matches { ($($t:tt)*) => { true } }
-    #[allow(unused_macros)] macro_rules! write { ($($t:tt)*) => { () } }
-    #[allow(unused_macros)] macro_rules! format_args { ($($t:tt)*) => { () } }
-    #[allow(unused_macros)] macro_rules! assert { ($($t:tt)*) => { () } }
 #[derive(Educe)]
-#[educe(Ord, PartialEq, PartialOrd, Eq)]
-pub struct T;
+#[repr(i64)]
+#[educe(PartialEq, Eq, Ord, PartialOrd)]
+pub enum T { None { #[educe(Ord(method = m_cmp))] self_data: A<0>, source: A<1>, #[educe(Ord(ignore = false, rank("-6")))] arg: A<0> } = 255, Some = -170, B(#[educe(Ord(rank = "-5"))] A<0>, #[educe(Ord(ignore))] A<0>, #[educe(Ord(ignore(true)))] A<0>) }
 }
 pub use ty::T;
 
-pub fn values() -> Vec<T> { vec![T] }
-pub fn show(x: &T) -> String { #[allow(unused_variables)] match x { T => format!("T()") } }
-pub fn o_disc(x: &T) -> i128 { match x { T => 0 } }
-pub fn o_cmp(a: &T, b: &T) -> Ordering { match (a, b) { (T, T) => {  Ordering::Equal } } }
+pub fn values() -> Vec<T> { vec![T::None { self_data: A(0), source: A(1), arg: A(0) }, T::None { self_data: A(0), source: A(7), arg: A(7) }, T::None { self_data: A(0), source: A(0), arg: A(7) }, T::None { self_data: A(7), source: A(7), arg: A(7) }, T::None { self_data: A(1), source: A(1), arg: A(7) }, T::None { self_data: A(1), source: A(7), arg: A(0) }, T::None { self_data: A(7), source: A(1), arg: A(1) }, T::None { self_data: A(1), source: A(7), arg: A(7) }, T::None { self_data: A(0), source: A(1), arg: A(1) }, T::None { self_data: A(0), source: A(7), arg: A(1) }, T::None { self_data: A(1), source: A(1), arg: A(0) }, T::None { self_data: A(0), source: A(7), arg: A(0) }, T::Some, T::B(A(0), A(0), A(7)), T::B(A(7), A(1), A(7)), T::B(A(7), A(7), A(1)), T::B(A(1), A(7), A(7)), T::B(A(0), A(1), A(7)), T::B(A(1), A(1), A(1)), T::B(A(1), A(0), A(1)), T::B(A(1), A(1), A(7)), T::B(A(1), A(7), A(0)), T::B(A(1), A(7), A(1)), T::B(A(1), A(1), A(0)), T::B(A(0), A(7), A(7))] }
+pub fn show(x: &T) -> String { #[allow(unused_variables)] match x { T::None { self_data: p0, source: p1, arg: p2 } => format!("None({},{},{})", sv(p0), sv(p1), sv(p2)), T::Some => format!("Some()"), T::B(p0, p1, p2) => format!("B({},{},{})", sv(p0), sv(p1), sv(p2)) } }
+pub fn o_disc(x: &T) -> i128 { match x { T::None { self_data: _, source: _, arg: _ } => 255, T::Some => -170, T::B(_, _, _) => -169 } }
+pub fn o_cmp(a: &T, b: &T) -> Ordering { match (a, b) { (T::None { self_data: a0, source: a1, arg: a2 }, T::None { self_data: b0, source: b1, arg: b2 }) => { let c = m_cmp(a0, b0); if c != Ordering::Equal { return c; } let c = ::core::cmp::Ord::cmp(a1, b1); if c != Ordering::Equal { return c; } let c = ::core::cmp::Ord::cmp(a2, b2); if c != Ordering::Equal { return c; } Ordering::Equal }, (T::Some, T::Some) => {  Ordering::Equal }, (T::B(a0, a1, a2), T::B(b0, b1, b2)) => { let c = ::core::cmp::Ord::cmp(a0, b0); if c != Ordering::Equal { return c; } Ordering::Equal }, _ => o_disc(a).cmp(&o_disc(b)) } }
 pub fn run(out: &mut Out) { let vs = values(); for (i, a) in vs.iter().enumerate() { for (j, b) in vs.iter().enumerate() { let e = o_cmp(a, b); let g = ::core::cmp::Ord::cmp(a, b); out.check(g == e, "ord_14", "cmp", || format!("cmp({}, {}) = {:?} expected {:?}", show(a), show(b), g, e)); let g2 = ::core::cmp::PartialOrd::partial_cmp(a, b); out.check(g2 == Some(e), "ord_14", "partial_is_some_cmp", || format!("partial_cmp({}, {}) = {:?} expected Some({:?})", show(a), show(b), g2, e)); } } }
